@@ -11,6 +11,8 @@ package db
 //@ ghost field txState int of github.com/agglayer/aggkit/db.Tx
 //@ ghost field undoCnt int of github.com/agglayer/aggkit/db.Tx
 //@ ghost var lastTx *Tx
+// number of storage statements that have failed so far (ghost): a block may only be committed if none of its own did
+//@ ghost var stmtFail int
 
 //@ interface github.com/agglayer/aggkit/db/types.DBer.BeginTx (self, ctx, opts)
 //@   modifies nothing
@@ -27,7 +29,8 @@ package db
 
 //@ interface github.com/agglayer/aggkit/db/types.Txer.Exec (self, query, args)
 //@   requires self != nil
-//@   modifies nothing
+//@   modifies stmtFail
+//@   ensures stmtFail == old(stmtFail) + ite(result1 == nil, 0, 1)
 
 //@ interface github.com/agglayer/aggkit/db/types.Txer.Commit (self)
 //@   requires self != nil
